@@ -388,6 +388,20 @@ func (f *Frame) applyContract(ins ssa.Instruction, c *Contract, ct *callTarget, 
 		f.oblige(st, kind, fmt.Sprintf("%s#%d.%s", lastName(ct.display), n, r.Label), props, r.Tags, t, ins.Pos(), r.Text)
 		f.addHyp(st.pc, t)
 	}
+	// recursion: the callee's measure must decrease
+	if c.Decreases != nil && ct.fn != nil {
+		for p := f; p != nil; p = p.parent {
+			if p.fn == ct.fn && p.parent == nil {
+				callee, err1 := env.expr(c.Decreases.Expr)
+				caller, err2 := p.requiresEnv(p.entry).expr(c.Decreases.Expr)
+				if err1 != nil || err2 != nil {
+					f.eng.specError(c.Func, c.Decreases, fmt.Errorf("decreases: %v %v", err1, err2))
+					break
+				}
+				f.oblige(st, "decreases", "recursion", f.supportProps(), nil, tAnd(tGe(caller.t, zeroLike(caller.t)), tLt(callee.t, caller.t)), ins.Pos(), c.Decreases.Text)
+			}
+		}
+	}
 	pre := st.clone()
 	ms := newModSet()
 	f.eng.contractMods(c, ct.fn, ms)
